@@ -550,7 +550,7 @@ fn known_signature(p: &Prog, checked: &[String], unchecked: &Result<Vec<String>,
         return Some(KNOWN_ACP_ANALYSIS);
     }
     // (c) trace with more than prefix_jobs simultaneous events
-    if specs.iter().any(|a| trace_all_zero(a)) && has_panic && all(&|s| s.contains("divide by zero") || s.contains("verif-step-budget:arrival::Curve::extrapolate") || s.contains("curve.rs")) {
+    if specs.iter().any(|a| trace_all_zero(a)) && has_panic && all(&|s| s.contains("divide by zero") || s.contains("verif-step-budget:arrival::Curve::") || s.contains("verif-step-budget:arrival::ExtrapolatingCurve::") || s.contains("curve.rs")) {
         return Some(KNOWN_TRACE_BURST);
     }
     None
